@@ -550,3 +550,4 @@ MANIFEST["text"] += (" Fixed-point structure (R5/R6): in align_translation every
                      "(lattice zero / vanishes-with-the-shifts / non-zero constant / unknown) proves to vanish when the registration results vanish; "
                      "per-image loops of preprocess and align_translation use the image index only inside subscripts.")
 MANIFEST["text"] += " Borrowed instances (R4): C13's rules on the NumPy registration helper behind align_translation (cross_correlation_shift, dft_upsample)."
+MANIFEST["text"] += ' R2 accepts in-place scaling of the coordinate arrays unless transform_coordinates returns arrays it keeps.'
